@@ -376,6 +376,11 @@ CALLEE_EXTRA = [
     "class K:\n    def __new__(cls, obs):\n        obs(1)\n        return super().__new__(cls)\n\n\n" + F_HEAD + "    K(obs)\n" + F_TAIL,
     "class K:\n    x = 1\n\n    def __post_init__(self):\n        raise E()\n\n\n" + F_HEAD + "    K()\n" + F_TAIL,
     "class K:\n    def h(self, obs):\n        obs(1)\n\n\ndef h(k, obs):\n    return 1\n\n\n" + F_HEAD + "    K().h(obs)\n    h(1, obs)\n" + F_TAIL,
+    # a method of a constant (", ".join, "{}".format) examined BEFORE a call of a user-defined / unknown function of the same name: what one
+    # question adds to the set of harmless names must not answer the next question
+    "HOLD = []\n\n\ndef join(*a):\n    HOLD[0](7)\n\n\ndef label(names):\n    return ', '.join(names)\n\n\n" + F_HEAD + "    HOLD.append(obs)\n    label(['a'])\n    join()\n" + F_TAIL,
+    "HOLD = []\n\n\ndef format(*a):\n    HOLD[0](7)\n\n\ndef label(name):\n    x = 1\n    return '<{}>'.format(name)\n\n\n" + F_HEAD + "    HOLD.append(obs)\n    label('a')\n    format()\n" + F_TAIL,
+    "HOLD = []\n\n\ndef upper(*a):\n    HOLD[0](7)\n\n\n" + F_HEAD + "    HOLD.append(obs)\n    if 'a'.upper():\n        pass\n    for c in 'ab'.split():\n        pass\n    upper()\n    split = obs\n    split(8)\n" + F_TAIL,
 ]
 
 CALLEE_CONSUMERS = ["fixes.delete_pointless_statements", "fixes.undefine_unused_variables", "format_code"]
